@@ -86,6 +86,10 @@ func (t *c14Txn) Commit(ctx context.Context) ([]keyvalue.OpResult, error) {
 // the FS shows exactly what the store holds.
 func VerifC14Faults() {
 	store := pNewStore()
+	if verifParam("OWNCOPY") != 0 && verifChoice("store-copies", 2) == 1 {
+		store.ownCopy = true
+		verifTag("store-data", "own-copy")
+	}
 	var fs hackpadfs.FS
 	var err error
 	if verifChoice("store-kind", 2) == 1 {
